@@ -15,6 +15,7 @@ import (
 	"os"
 	"testing"
 
+	"github.com/nuts-foundation/nuts-node/http/user"
 	"github.com/nuts-foundation/nuts-node/auth/oauth"
 	"github.com/nuts-foundation/nuts-node/vcr/pe"
 	"go.uber.org/mock/gomock"
@@ -100,12 +101,51 @@ func TestVerifC19(t *testing.T) {
 	}
 	st := "state"
 
+	// ---- authorization request FROM a verifier (wallet side): by-value client_metadata / presentation_definition parameters
+	reqCtx, _ := user.CreateTestSession(context.Background(), holderSubjectID)
+	ctx.iamClient.EXPECT().PostError(gomock.Any(), gomock.Any(), gomock.Any(), gomock.Any()).Return("https://example.com/redirect", nil).AnyTimes()
+	ctx.iamClient.EXPECT().PostAuthorizationResponse(gomock.Any(), gomock.Any(), gomock.Any(), gomock.Any(), gomock.Any()).Return("https://example.com/redirect", nil).AnyTimes()
+	ctx.iamClient.EXPECT().ClientMetadata(gomock.Any(), gomock.Any()).Return(&oauth.OAuthClientMetadata{VPFormats: oauth.DefaultOpenIDSupportedFormats()}, nil).AnyTimes()
+	ctx.iamClient.EXPECT().PresentationDefinition(gomock.Any(), gomock.Any()).Return(&pe.PresentationDefinition{Id: "1"}, nil).AnyTimes()
+	ctx.wallet.EXPECT().BuildSubmission(gomock.Any(), gomock.Any(), gomock.Any(), gomock.Any(), gomock.Any()).Return(nil, nil, errors.New("no credentials")).AnyTimes()
+	fromVerifier := func(in string) string {
+		var params map[string]interface{}
+		if json.Unmarshal([]byte(in), &params) != nil {
+			return "err:harness"
+		}
+		putState(ctx, "state", OAuthSession{SessionID: "token", OwnSubject: &holderSubjectID, RedirectURI: "https://example.com/iam/holder/cb", OtherDID: &verifierDID})
+		_, err := ctx.client.handleAuthorizeRequestFromVerifier(reqCtx, holderSubjectID, oauthParameters(params), pe.WalletOwnerOrganization)
+		if err != nil {
+			return "err"
+		}
+		return "ok"
+	}
+	verifierParams := func(over map[string]any, del ...string) string {
+		m := map[string]any{
+			oauth.ClientIDParam: verifierDID.String(), oauth.ClientIDSchemeParam: entityClientIDScheme,
+			oauth.ClientMetadataURIParam: "https://example.com/.well-known/authorization-server/iam/verifier", oauth.NonceParam: "nonce",
+			oauth.PresentationDefUriParam: "https://example.com/iam/verifier/presentation_definition?scope=test", oauth.ResponseModeParam: responseModeDirectPost,
+			oauth.ResponseURIParam: "https://example.com/iam/verifier/response", oauth.ResponseTypeParam: oauth.VPTokenResponseType, oauth.ScopeParam: "test", oauth.StateParam: "state",
+		}
+		for _, d := range del {
+			delete(m, d)
+		}
+		for k, v := range over {
+			m[k] = v
+		}
+		b, _ := json.Marshal(m)
+		return string(b)
+	}
+
 	replay, isReplay := c19ReadOps()
 	for _, op := range replay {
 		switch op["op"] {
 		case "callback":
 			k, _ := op["err"].(string)
 			runCallback(k)
+		case "x.iam.handleAuthorizeRequestFromVerifier":
+			in, _ := op["input"].(string)
+			o.explore("iam.handleAuthorizeRequestFromVerifier", in, func() string { return fromVerifier(in) })
 		case "x.iam.HandleAuthorizeResponse":
 			in, _ := op["input"].(string)
 			o.explore("iam.HandleAuthorizeResponse", in, func() string { return handler(in) })
@@ -130,6 +170,16 @@ func TestVerifC19(t *testing.T) {
 		mkIn(&vpToken, &submission, &other, verifierSubject), mkIn(&vpToken, &submission, &st, "unknown"), mkIn(&vpToken, &submission, &st, "")} {
 		run(in, "request-shape")
 	}
+	// whole-value shapes of vp_token and presentation_submission (empty / single / nested-empty arrays, scalars, objects), with the
+	// LIVE session state seeded before every call so that the input gets past the state lookup
+	shapes := []string{`[]`, ` [ ] `, `[[]]`, `[[],[]]`, `[{}]`, `[null]`, `{}`, `null`, `""`, `"x"`, `5`, `true`, `[5]`, `["x"]`, `[` + vpToken + `]`, `[[` + vpToken + `]]`,
+		`[` + vpToken + `,[]]`, `[` + vpToken + `,null]`, `[` + vpToken + `,` + vpToken + `]`, ``, ` `, `[`, `]`, "\x00"}
+	for _, sh := range shapes {
+		v := sh
+		run(mkIn(&v, &submission, &st, verifierSubject), "vp_token-shape")
+		run(mkIn(&vpToken, &v, &st, verifierSubject), "submission-shape")
+		run(mkIn(&v, &v, &st, verifierSubject), "both-shape")
+	}
 	// the malformed-proof cases of candidate #21: JSON-LD VP whose proof does not parse as exactly one LD proof
 	for _, pf := range []string{`5`, `"x"`, `[]`, `[{},{}]`, `{"challenge":5}`, `{"domain":5,"challenge":"challenge"}`, `{"created":"x","challenge":"challenge"}`, `null`, `[null]`, `{"challenge":"challenge","domain":["a"]}`} {
 		root, _ := jparse([]byte(vpToken))
@@ -143,6 +193,28 @@ func TestVerifC19(t *testing.T) {
 		two := "[" + vpToken + "," + s + "]"
 		run(mkIn(&two, &submission, &st, verifierSubject), "malformed-ld-proof-second-vp")
 	}
+	// by-value parameters of every JSON shape (a JSON `null` unmarshals into a nil pointer without error)
+	runFV := func(in, kind string) {
+		o.dist["verifier-request:"+kind]++
+		o.explore("iam.handleAuthorizeRequestFromVerifier", in, func() string { return fromVerifier(in) })
+	}
+	runFV(verifierParams(nil), "valid")
+	validPD := `{"id":"1","input_descriptors":[{"id":"1","constraints":{"fields":[{"path":["$.type"]}]}}]}`
+	validMD := `{"vp_formats":{"ldp_vp":{"proof_type":["JsonWebSignature2020"]}}}`
+	for _, v := range []string{`null`, ` null `, `{}`, `[]`, `""`, `5`, `true`, `"x"`, `{"id":null}`, `{"input_descriptors":null}`, `{"input_descriptors":[null]}`, `{"vp_formats":null}`, `{"vp_formats":{"ldp_vp":null}}`, validPD, validMD} {
+		runFV(verifierParams(map[string]any{oauth.PresentationDefParam: v}, oauth.PresentationDefUriParam), "presentation_definition-by-value")
+		runFV(verifierParams(map[string]any{oauth.ClientMetadataParam: v}, oauth.ClientMetadataURIParam), "client_metadata-by-value")
+		runFV(verifierParams(map[string]any{oauth.ClientMetadataParam: v, oauth.PresentationDefParam: v}, oauth.ClientMetadataURIParam, oauth.PresentationDefUriParam), "both-by-value")
+	}
+	jsystematic([]byte(verifierParams(map[string]any{oauth.PresentationDefParam: validPD, oauth.ClientMetadataParam: validMD}, oauth.ClientMetadataURIParam, oauth.PresentationDefUriParam)),
+		func(b []byte, kind string) { runFV(string(b), kind) })
+	jsystematic([]byte(validPD), func(b []byte, kind string) {
+		runFV(verifierParams(map[string]any{oauth.PresentationDefParam: string(b)}, oauth.PresentationDefUriParam), "pd:"+kind)
+	})
+	jsystematic([]byte(validMD), func(b []byte, kind string) {
+		runFV(verifierParams(map[string]any{oauth.ClientMetadataParam: string(b)}, oauth.ClientMetadataURIParam), "md:"+kind)
+	})
+
 	jsystematic([]byte(vpToken), func(b []byte, kind string) { s := string(b); run(mkIn(&s, &submission, &st, verifierSubject), "vp:"+kind) })
 	jsystematic([]byte(submission), func(b []byte, kind string) { s := string(b); run(mkIn(&vpToken, &s, &st, verifierSubject), "submission:"+kind) })
 	n := c19Env("VERIF_N", 400)
